@@ -74,7 +74,7 @@ def pad_chart(ch, rng, target_states):
 def make_case(seed, dm='lua', size=None):
     rng = random.Random(seed)
     if seed < 0:
-        ch, hist = (C.gen_done_chart, C.gen_hist_chart, C.gen_conflict_chart)[seed % 3](-seed)      # done.state / history / conflict family
+        ch, hist = (C.gen_done_chart, C.gen_hist_chart, C.gen_conflict_chart, C.gen_multiinit_chart)[seed % 4](-seed)      # done.state / history / conflict / multi-target initial family
     else:
         ch, hist = C.gen_chart(seed, data=True, errors=False, dataexpr=False, rich=True)
         if seed % 5 == 1: C.substring_ids(ch)                     # state ids that are prefixes of one another
@@ -256,7 +256,7 @@ def run_cases(chk, tier, n, sizes, tag):
     base = chk.seed * 1000000 + 404
     cases = [('g%d' % i, base + i, None) for i in range(n)]
     cases += [('z%d_%d' % (sz, k), base + 900000 + sz * 10 + k, sz) for sz in sizes for k in range(2)]
-    cases += [('d%d' % i, -(base + 700000 + i), None) for i in range(max(12, n // 4))]
+    cases += [('d%d' % i, -(base + 700000 + i), None) for i in range(max(16, n // 3))]
     if sizes:
         cases += [('nest%d' % i, base + 600000 + i, 'nested') for i in range(max(10, n // 10))]
         # index types: uint8_t counters at 255/256/257 states (few transitions) and at 255/256/257 transitions (few states)
